@@ -43,6 +43,16 @@ pub fn identity_reject_set(v: Vec<(u32, Vec<u8>)>) {
     *REJECT.lock().unwrap() = v;
 }
 
+/// Credential type of the harness's second credential kind (checks/c10z.rs).
+pub const CUSTOM_CRED: u16 = 0xF0C1;
+
+/// Parties whose clients advertise CUSTOM_CRED in their capabilities (empty except in c10z).
+static WIDE: std::sync::Mutex<Vec<u32>> = std::sync::Mutex::new(Vec::new());
+
+pub fn wide_credential_parties(v: Vec<u32>) {
+    *WIDE.lock().unwrap() = v;
+}
+
 #[derive(Clone, Debug)]
 pub struct HIdentity {
     pub party: u32,
@@ -54,6 +64,7 @@ impl HIdentity {
             .credential
             .as_basic()
             .map(|b| b.identifier.clone())
+            .or_else(|| id.credential.as_custom().filter(|c| c.credential_type == CredentialType::new(CUSTOM_CRED)).map(|c| c.data.clone()))
             .ok_or_else(|| HErr("not a basic credential".into()))?;
         if REJECT.lock().unwrap().iter().any(|(p, n)| *p == self.party && *n == name) {
             return Err(HErr(format!("identity rejected by party {}", self.party)));
@@ -72,6 +83,9 @@ impl IdentityProvider for HIdentity {
         context: MemberValidationContext<'_>,
     ) -> Result<(), HErr> {
         self.check(signing_identity)?;
+        if signing_identity.credential.as_custom().is_some() {
+            return Ok(());
+        }
         BasicIdentityProvider
             .validate_member(signing_identity, timestamp, context)
             .map_err(|e| HErr(format!("{e:?}")))
@@ -90,6 +104,9 @@ impl IdentityProvider for HIdentity {
     }
 
     fn identity(&self, signing_identity: &SigningIdentity, extensions: &ExtensionList) -> Result<Vec<u8>, HErr> {
+        if let Some(c) = signing_identity.credential.as_custom() {
+            return Ok(c.data.clone());
+        }
         BasicIdentityProvider
             .identity(signing_identity, extensions)
             .map_err(|e| HErr(format!("{e:?}")))
@@ -101,13 +118,20 @@ impl IdentityProvider for HIdentity {
         successor: &SigningIdentity,
         extensions: &ExtensionList,
     ) -> Result<bool, HErr> {
+        if predecessor.credential.as_custom().is_some() || successor.credential.as_custom().is_some() {
+            return Ok(self.identity(predecessor, extensions)? == self.identity(successor, extensions)?);
+        }
         BasicIdentityProvider
             .valid_successor(predecessor, successor, extensions)
             .map_err(|e| HErr(format!("{e:?}")))
     }
 
     fn supported_types(&self) -> Vec<CredentialType> {
-        BasicIdentityProvider.supported_types()
+        let mut v = BasicIdentityProvider.supported_types();
+        if WIDE.lock().unwrap().contains(&self.party) {
+            v.push(CredentialType::new(CUSTOM_CRED));
+        }
+        v
     }
 }
 
